@@ -168,12 +168,15 @@ fn opname(b: Option<&ScriptBit>) -> String {
 struct World {
     script: Script,
     tx: Option<(Transaction, usize)>,
+    /// third public constructor: transaction context plus the program's bits handed over directly
+    via_bits: bool,
 }
 
 impl World {
     fn build(&self) -> Result<Interpreter, String> {
         match &self.tx {
             None => Ok(Interpreter::from_script(&self.script)),
+            Some((tx, idx)) if self.via_bits => Ok(Interpreter::from_transaction_and_script_bits(tx.clone(), *idx, self.script.to_script_bits())),
             Some((tx, idx)) => Interpreter::from_transaction(tx, *idx).map_err(|e| e.to_string()),
         }
     }
@@ -705,7 +708,7 @@ impl Scenario for InterpDriver {
         }
         let tx = if with_tx {
             let n_in = rng.range(1, 3);
-            json!({"n_in": n_in, "n_out": rng.range(0, 3), "idx": if rng.chance(1, 12) { n_in + 1 } else { rng.below(n_in) }, "sat": u64s(rng.below(1 << 40)), "has_lock": !rng.chance(1, 10), "has_sat": !rng.chance(1, 10), "split": rng.below(4), "split_at": split_at})
+            json!({"n_in": n_in, "n_out": rng.range(0, 3), "idx": if rng.chance(1, 12) { n_in + 1 } else { rng.below(n_in) }, "sat": u64s(rng.below(1 << 40)), "has_lock": !rng.chance(1, 10), "has_sat": !rng.chance(1, 10), "split": rng.below(4), "split_at": split_at, "via_bits": rng.chance(1, 5)})
         } else {
             Value::Null
         };
@@ -889,7 +892,11 @@ impl InterpDriver {
                             tx.set_input(i, &txin);
                         }
                     }
-                    let w = World { script, tx: tx_ctx };
+                    let via_bits = jbool(&txv, "via_bits") && tx_ctx.is_some();
+                    if via_bits {
+                        ctx.probe("built_from_transaction_and_script_bits");
+                    }
+                    let w = World { script, tx: tx_ctx, via_bits };
                     // --- reference trace (healthy stdout)
                     faults::stdout_heal();
                     ctx.crumb("Interpreter::from_*");
